@@ -399,6 +399,8 @@ def gen_inference_spec(tape, disc_kinds=('disc', 'dist'), max_priors=3, extra_sh
         sim_parents.append(float(tape.int('sim_const_v', 1, 5)) * 0.25)
     sim_cfg = {'node': 'sim', 'kind': 'sim', 'ndraws': tape.int('ndraws', 1, 3),
                'shape': sim_k, 'mode': mode, 'salt': 0.25}
+    if tape.chance('sim_uses_meta', 1, 4):
+        sim_cfg['use_meta'] = True       # its value then depends on meta['batch_index']
     n_obs = 1
     obs = np.asarray(kernel(dict(sim_cfg, node='sim'),
                             [np.full(n_obs, 0.3 + 0.2 * j) for j in range(len(sim_parents))],
